@@ -36,7 +36,7 @@ func init() {
 		return &fw.Prop{
 			ID:    "C02",
 			Level: "exploration",
-			Rule:  "cases = (real proof, restriction to its first k query rounds with both round counts adjusted, range-check configuration in {native, commit, bit decomposition by face, bit decomposition forced by env var (child process)}, wrapper in {VerifierCircuit, CircuitFixed (circuit A: 16 public inputs)}) executed with the repository's own hint functions (no native fast path): the verdict must be ACCEPT; 'gnark' cases run the same (circuit, assignment) in gnark's own test engine, which must agree; 'shadowfit' runs the integer-bound monitor to its fixpoint and requires every quotient's data-independent honest bound to fit its enforced width (no luck in intermediate sizes); a tampered control must be rejected by both engines. Non-trivial = every case (distinct instance/k/configuration/wrapper).",
+			Rule:  "cases = (real proof, restriction to its first k query rounds with both round counts adjusted, range-check configuration in {native, commit, bit decomposition by face, bit decomposition forced by env var (child process)}, wrapper in {VerifierCircuit, CircuitFixed (circuit A: 16 public inputs)}) executed with the repository's own hint functions (no native fast path): the verdict must be ACCEPT; 'gnark' cases run the same (circuit, assignment) in gnark's own test engine, which must agree; 'shadowfit' runs the integer-bound monitor to its fixpoint and requires every quotient's data-independent honest bound to fit its enforced width (no luck in intermediate sizes); a tampered control must be rejected by both engines. Non-trivial = every case (distinct instance/k/configuration/wrapper). Also: the commitment-based mechanism on every circuit size k = 1..28 (the number of range checks matters there), whole circuits compiled with gnark's R1CS and SCS builders and solved with the real solver (hint functions must be registered), several proofs verified by one chip. 'Accepted' means accepted with no honest hint function refusing its inputs.",
 			Assumptions: []string{
 				"honest proofs available offline are the five real proofs (two inner circuits) and their prefix restrictions",
 				"the env var configuration is exercised in a child process because the repository reads it when a chip is created",
